@@ -157,8 +157,10 @@ fn check_c10(pe: &PointEval, item: u64, acc: &mut Acc) {
     let bv = ex.bound_v(K);
     let kap = 1.0 + ex.kappa;
     // (b) shift = L^-1 u
-    let unorm: f64 = ex.uvec_abs.iter().flatten().map(|c| qf(c) * qf(c)).sum::<f64>().sqrt();
-    let tol_shift = K * nl as f64 * EPS * kap * ex.inv_frob * unorm + 1e-290;
+    // scale-safe Euclidean norm of the majorant (squares of 1e-190 underflow)
+    let umax = ex.uvec_abs.iter().flatten().map(qf).fold(0.0f64, f64::max);
+    let unorm_scaled: f64 = if umax > 0.0 { ex.uvec_abs.iter().flatten().map(|c| (qf(c) / umax) * (qf(c) / umax)).sum::<f64>().sqrt() } else { 0.0 };
+    let tol_shift = K * nl as f64 * EPS * kap * (ex.inv_frob * umax) * unorm_scaled + 1e-290;
     for l in 0..nl {
         for k in 0..d {
             let err = qf(&(q(m.shift[l][k]) - &ex.shift[l][k]).abs());
